@@ -566,6 +566,11 @@ def rule_n(idx: ProgramIndex, rep: Report):
                   and any(isinstance(t, ast.Subscript) for t in n.targets)):
                 var, bad_kind = n.value.id, f"store `{norm(n)}`"
                 node = n
+            elif isinstance(n, ast.Dict) and any(isinstance(v_, ast.Name) and v_.id in names for v_ in n.values):
+                # {**self._kwargs, "output_device": device}: the same store, written as a display
+                v_ = next(v_ for v_ in n.values if isinstance(v_, ast.Name) and v_.id in names)
+                var, bad_kind = v_.id, f"store `{short(n, 70)}`"
+                node = n
             elif isinstance(n, ast.Call) and not (isinstance(n.func, ast.Attribute) and n.func.attr in ("to", "type")):
                 # the raw optional handed to a constructor's dtype= / device= keyword: the constructor completes None
                 # from TORCH's defaults, not from this operator
@@ -701,13 +706,22 @@ def rule_g2(idx: ProgramIndex, rep: Report):
     """requires_grad is propagated to EVERY recorded tensor: the loops of _set_requires_grad (and of the requires_grad
     getter) cover `_args` and a keyword record that holds the tensor-valued keywords."""
     rep.rule("C14.G2", "requires_grad propagation covers the positional and the tensor-valued keyword record", floor=2)
+    from ..recordmut import record_containers
+
     base = idx.operator_base()
     init = base.methods.get("__init__")
+    records = record_containers(idx)
     tensor_kw: Set[str] = set()
     plain_kw: Set[str] = set()
+
+    def is_tensor_test(e: ast.AST) -> bool:
+        t = norm(e)
+        return "is_tensor" in t or ("isinstance" in t and ("LinearOperator" in t or "Tensor" in t))
+
     if init is not None:
+        # shape 1: a loop that files each keyword under a type test
         for n in ast.walk(init.node):
-            if isinstance(n, ast.If) and ("is_tensor" in norm(n.test) or "LinearOperator" in norm(n.test)):
+            if isinstance(n, ast.If) and is_tensor_test(n.test):
                 for fld, bucket in ((n.body, tensor_kw), (n.orelse, plain_kw)):
                     for st in fld:
                         for x in ast.walk(st):
@@ -716,31 +730,69 @@ def rule_g2(idx: ProgramIndex, rep: Report):
                                     if isinstance(t, ast.Subscript) and isinstance(t.value, ast.Attribute) and isinstance(t.value.value, ast.Name) \
                                             and t.value.value.id == "self":
                                         bucket.add(t.value.attr)
-    if not tensor_kw:
-        raise AnalysisError("LinearOperator.__init__: the record of tensor-valued keyword arguments was not found")
-    # properties that merge the records (e.g. _kwargs = {**tensor kw, **plain kw}) also cover the tensors
-    covering = set(tensor_kw)
+        # shape 2: filtered comprehensions; the filter is the type test itself or a flag taken (through zip) from a list of
+        # type tests computed before
+        flag_lists = {t.id for n in ast.walk(init.node) if isinstance(n, ast.Assign) and isinstance(n.value, (ast.ListComp, ast.GeneratorExp))
+                      and is_tensor_test(n.value.elt) for t in n.targets if isinstance(t, ast.Name)}
+        for n in ast.walk(init.node):
+            if not (isinstance(n, ast.Assign) and len(n.targets) == 1 and isinstance(n.targets[0], ast.Attribute)
+                    and isinstance(n.targets[0].value, ast.Name) and n.targets[0].value.id == "self"):
+                continue
+            comp = n.value if isinstance(n.value, ast.DictComp) else next(
+                (a_ for a_ in getattr(n.value, "args", []) if isinstance(a_, (ast.GeneratorExp, ast.ListComp, ast.DictComp))), None)
+            if comp is None:
+                continue
+            for g in comp.generators:
+                flags = set()
+                if isinstance(g.iter, ast.Call) and isinstance(g.iter.func, ast.Name) and g.iter.func.id == "zip" \
+                        and isinstance(g.target, (ast.Tuple, ast.List)) and len(g.target.elts) == len(g.iter.args):
+                    for tg, src in zip(g.target.elts, g.iter.args):
+                        if isinstance(src, ast.Name) and src.id in flag_lists and isinstance(tg, ast.Name):
+                            flags.add(tg.id)
+                for cond in g.ifs:
+                    neg, c_ = False, cond
+                    while isinstance(c_, ast.UnaryOp) and isinstance(c_.op, ast.Not):
+                        neg, c_ = not neg, c_.operand
+                    if is_tensor_test(c_) or (isinstance(c_, ast.Name) and c_.id in flags):
+                        (plain_kw if neg else tensor_kw).add(n.targets[0].attr)
+    # properties that merge records (e.g. _kwargs = {**tensor kw, **plain kw}) stand for every record they read
+    reads: Dict[str, Set[str]] = {}
     for nm, defs in base.all_defs.items():
         for f_ in defs:
-            if f_.is_property() and not f_.is_setter() and any(
-                    isinstance(x, ast.Attribute) and x.attr in tensor_kw for x in ast.walk(f_.node)):
-                covering.add(nm)
+            if f_.is_property() and not f_.is_setter():
+                r_ = {x.attr for x in ast.walk(f_.node) if isinstance(x, ast.Attribute) and x.attr in records}
+                if r_:
+                    reads.setdefault(nm, set()).update(r_)
+    union = set().union(*reads.values()) if reads else set(records)
     for mname in ("_set_requires_grad", "requires_grad"):
         for f_ in base.all_defs.get(mname, []):
             if f_.is_setter():
                 continue
             iterated = {x.attr for n in ast.walk(f_.node) if isinstance(n, (ast.For, ast.comprehension))
                         for x in ast.walk(n.iter) if isinstance(x, ast.Attribute) and isinstance(x.value, ast.Name) and x.value.id == "self"}
-            sample = {"method": f"{base.name}.{mname}", "iterates": sorted(iterated), "tensor_keyword_record": sorted(covering)}
-            if "_args" in iterated and (iterated & covering):
-                rep.ok("C14.G2", sample)
-            elif not iterated:
+            if not iterated:
                 continue
+            covered = set()
+            for a_ in iterated:
+                covered |= reads.get(a_, {a_} if a_ in records else set())
+            sample = {"method": f"{base.name}.{mname}", "iterates": sorted(iterated), "keyword_records_covered": sorted(covered),
+                      "tensor_keyword_record": sorted(tensor_kw) or "not classified: every record must be covered"}
+            if tensor_kw:
+                good = "_args" in iterated and tensor_kw <= covered
+            elif "_args" in iterated and union <= covered:
+                good = True
+            elif "_args" not in iterated:
+                good = False
+            else:
+                raise AnalysisError("LinearOperator.__init__: the record of tensor-valued keyword arguments was not found and "
+                                    f"{base.name}.{mname} does not walk every keyword record")
+            if good:
+                rep.ok("C14.G2", sample)
             else:
                 rep.bad("C14.G2", Finding(PROP, "C14.G2", f"{base.name}.{mname}", f"iterates {sorted(iterated)}",
                                           f"{base.name}.{mname} walks {sorted(iterated)} but the tensor-valued keyword arguments live in "
-                                          f"{sorted(tensor_kw)}: floating tensors passed by keyword (KernelLinearOperator hyper-parameters) are "
-                                          "skipped when requires_grad is propagated / read", f_.loc()), sample)
+                                          f"{sorted(tensor_kw) or sorted(union)}: floating tensors passed by keyword (KernelLinearOperator "
+                                          "hyper-parameters) are skipped when requires_grad is propagated / read", f_.loc()), sample)
 
 
 # ------------------------------------------------------------------------------------------------
